@@ -136,7 +136,7 @@ def generate(rng, tier, index):
     multi = tkind not in ("avro",) and rng.random() < 0.6
     ops = []
     for i in range(n):
-        ops.append({"op": "write", "desc": rng.choice(["D0", "D1", "D2", "D3", "D4", "D5", "D4", "D5"]) if multi else "D0"})
+        ops.append({"op": "write", "desc": rng.choice(["D0", "D1", "D2", "D3", "D4", "D5", "D4", "D5", "G", "G"]) if multi else "D0"})
         r = rng.random()
         if r < 0.15:
             ops.append({"op": "flush"})
@@ -212,6 +212,13 @@ def _ids_from_stream_bytes(plain):
         if f.kind == "REC":
             v = f.info["values"][0]
             if isinstance(v, refcodec.Ext):  # integers beyond 64 bits travel as (negative?, big-endian bytes)
+                neg, b = v.value
+                x = int.from_bytes(b, "big")
+                v = -x if neg else x
+            ids.append(v)
+        elif f.kind == "GROUPED":
+            v = f.info["values"][0][1][0]  # first member's first value
+            if isinstance(v, refcodec.Ext):
                 neg, b = v.value
                 x = int.from_bytes(b, "big")
                 v = -x if neg else x
@@ -394,6 +401,11 @@ def run_history(plan, w, viols, states):
                     rec = pool.make("D1", [n, "v%d" % n, bool(n % 2)])
                 elif desc == "D3":
                     rec = pool.make("D3", [n, "v%d" % n])
+                elif desc == "G":
+                    from flow.record import GroupedRecord
+
+                    # a grouped record: counts as ONE record for split limits and for conservation
+                    rec = GroupedRecord("c17/grp", [pool.make("D0", [n, "v%d" % n]), pool.make("D1", [n, "x", True]), pool.make("D3", [n, "y"])])
                 elif desc == "D4":
                     rec = pool.make("D4", [n, "v%d" % n, "w"])
                 elif desc == "D5":
